@@ -1,6 +1,7 @@
 """C18 — method descriptions mirror the described function's real signature (DESIGN.md section 5, C18).
 
-The kernel ``interface.fromFunction`` / ``fromMethod`` is re-translated from the source on every
+The kernel ``interface.fromFunction`` / ``fromMethod`` (and Method.getSignatureInfo / getSignatureString,
+Element's tagged-value accessors, ABCInterfaceClass.__method_from_function) is re-translated from the source on every
 run (harness/translate/fromfunction.py -> coq/Gen/FromFunction.v); Properties/C18.v is proved
 about that generated text."""
 import itertools
@@ -14,7 +15,9 @@ COQ_TARGETS = ["Tie/C18.vo", "Properties/C18.vo"]
 PROPERTY_FILE = "Properties/C18.v"
 TIE = "Tie.C18"
 DRIVER = "c18_driver.py"
-THEOREMS = ["C18_fromFunction_correct", "C18_signature_string_renders", "C18_fromMethod_strips_self"]
+THEOREMS = ["C18_fromFunction_correct", "C18_signature_string_renders", "C18_fromMethod_strips_self",
+            "C18_generated_signature_string_eq_model", "C18_generated_tagged_eq_model",
+            "C18_generated_abc_method_eq_model"]
 SHARD = 120
 GEN_FILE = os.path.join(C.COQ, "Gen", "FromFunction.v")
 SOURCE = os.path.join(C.REPO, "src", "zope", "interface", "interface.py")
@@ -346,7 +349,7 @@ def regenerate(run):
 
 TECHNIQUE = ("Coq proof over a Gallina kernel regenerated from interface.fromFunction by a fail-closed ast "
              "translator; CPython layout assumption and correspondence checked by vm_compute on real defs")
-LEVEL_TEXT = ("Machine-checked theorems (Properties/C18.v, 3 theorems, closed under the global context) state, for every "
+LEVEL_TEXT = ("Machine-checked theorems (Properties/C18.v, 6 theorems, closed under the global context) state, for every "
               "valid signature with any number of positional-only / positional / keyword-only parameters, any "
               "defaults, optional * and **, any locals and any imlevel (clamped to the positional count), that the "
               "kernel translated from the current source returns exactly the signature's description, that "
@@ -355,5 +358,6 @@ LEVEL_TEXT = ("Machine-checked theorems (Properties/C18.v, 3 theorems, closed un
               "judged in Coq against inspect.signature.")
 LEVEL_NOTE = ("Trusted: Coq kernel/vm_compute; the translator and the Python-primitive semantics of Model/PyFunc.v "
               "(validated by correspondence); CPython's code-object layout (Spec layout, validated against every "
-              "generated def each run); Method.getSignatureString and InterfaceClass/verify call sites are "
-              "hand-modelled (validated by correspondence), ABCInterfaceClass.__method_from_function included.")
+              "generated def each run); the call sites in InterfaceClass.__compute_attrs / verify are hand-modelled "
+              "(validated by correspondence).  Method.getSignatureString / getSignatureInfo, Element's tagged-value "
+              "accessors and ABCInterfaceClass.__method_from_function are regenerated and proved equal to the model.")
